@@ -543,12 +543,339 @@ SHARED = {
     'token_pairing': (token_pairing, 'TOKEN.pairing', ('C16',)),
     'tracking_pop_on_match': (tracking_pop_on_match, 'SCAN.pop-on-match', ('C31',)),
     'tracking_owner': (tracking_owner, 'TRACK.owner', ('C11', 'C12', 'C31')),
-    'ring_owners': (ring_owners, 'RING.owners', ('C04', 'C05', 'C07', 'C09', 'C12', 'C18', 'C19', 'C20', 'C21')),
-    'queue_internals': (queue_internals, 'QUEUE.internals', ('C06', 'C08', 'C13')),
+    'ring_owners': (ring_owners, 'RING.owners', ('C04', 'C05', 'C07', 'C09', 'C10', 'C11', 'C12', 'C18', 'C19', 'C20', 'C21', 'C31')),
+    'queue_internals': (queue_internals, 'QUEUE.internals', ('C06', 'C07', 'C08', 'C09', 'C13')),
 }
 
 
+def guard_reset(run, model, rule):
+    """a flag that is set before a step (a wrapped call, dispatch, next_rtc, a yield of a context manager), cleared after it and tested to refuse or skip work must be
+    cleared in a `finally`: an exception raised by a user handler inside the step - which the caller may catch, going on to use the chart - otherwise leaves the flag set
+    for the life of the object"""
+    run.rule(rule, 'a guard flag set around a step and tested elsewhere is cleared in a finally block (a handler that raises must not leave it set for good)')
+    n = 0
+    tested = set()
+    for f in model.all_funcs():
+        for t in ast.walk(f.node):
+            if isinstance(t, (ast.If, ast.While)):
+                for x in ast.walk(t.test):
+                    if isinstance(x, ast.Attribute) and isinstance(x.ctx, ast.Load):
+                        tested.add(x.attr)
+    for f in model.all_funcs():
+        if f.module.name not in ('hsm', 'activeobject'):
+            continue
+        for node in ast.walk(f.node):
+            for fld in ('body', 'orelse'):
+                blk = getattr(node, fld, None)
+                if not (isinstance(blk, list) and blk and all(isinstance(x, ast.stmt) for x in blk)) or (isinstance(node, ast.Try) and fld == 'finalbody'):
+                    continue
+                sets = {}
+                for i, st in enumerate(blk):
+                    if isinstance(st, ast.Assign) and len(st.targets) == 1 and isinstance(st.targets[0], ast.Attribute) and isinstance(st.value, ast.Constant) \
+                            and isinstance(st.value.value, bool):
+                        a = st.targets[0].attr
+                        if st.value.value is True:
+                            sets[a] = i
+                        elif a in sets and a in tested:
+                            between = blk[sets[a] + 1:i]
+                            risky = [c for b in between for c in ast.walk(b) if isinstance(c, (ast.Call, ast.Yield, ast.YieldFrom))]
+                            if risky:
+                                n += 1
+                                run.inst(rule, f, 'guard flag %s is cleared in a finally' % a, False,
+                                         '%s sets %s, runs %s and clears the flag afterwards in straight-line code: if that step raises (a user handler fails, the processor reports '
+                                         'an impossible chart) the flag stays set; every later step that tests it refuses or skips its work - events stay queued, transitions are '
+                                         'not made, or a misleading error is raised - for the rest of the object\'s life' % (f.qualname, norm(st.targets[0]), norm(risky[0])[:50]),
+                                         node=st, obligation=True)
+                            sets.pop(a, None)
+    if n == 0:
+        run.inst(rule, model.func('hsm.HsmEventProcessor.dispatch'), 'no guard flag is set and cleared around a step in straight-line code', True, obligation=True)
+
+
+SHARED['guard_reset'] = (guard_reset, 'STEP.guard-reset', ('C01', 'C02', 'C03', 'C04', 'C14', 'C15', 'C24'))
+
+
+def holders_per_chart(run, model, rule):
+    """`self.event`, `self.state`, `self.temp` are small per-chart holder objects made by the constructor: the processor and its wrappers read and write their fields.
+    Re-binding one of them to something shared (the dispatched Event object, which the fabric hands to every subscriber) or to per-thread storage changes who sees what."""
+    run.rule(rule, 'the per-chart holders event / state / temp are bound to a fresh Attribute() by constructors (or when missing) only: never to the dispatched event, never to thread-local storage')
+    n = 0
+    hep = model.cls('HsmEventProcessor')
+    for f in model.all_funcs():
+        if f.module.name != 'hsm' or not f.params or f.owner_class is None or hep not in model.mro(f.owner_class):
+            continue
+        for st in walk_shallow(f.node):
+            if isinstance(st, ast.Assign) and len(st.targets) == 1 and isinstance(st.targets[0], ast.Attribute) and st.targets[0].attr in ('event', 'state', 'temp') \
+                    and isinstance(st.targets[0].value, ast.Name) and st.targets[0].value.id == f.params[0]:
+                v = st.value
+                fresh = isinstance(v, ast.Call) and norm(v.func).split('.')[-1] == 'Attribute' and not v.args
+                n += 1
+                if not fresh:
+                    what = 'a parameter of the call' if isinstance(v, ast.Name) and v.id in f.params else norm(v)
+                    run.inst(rule, f, 'holder %s stays a per-chart Attribute()' % st.targets[0].attr, False,
+                             '%s binds the chart\'s %s holder to %s: the fields the processor keeps there (event.ignored, the search cursor temp.fun, state.fun) then live on an object '
+                             'other charts or other threads share or do not see - a chart that ignores a published event marks it ignored for a chart that is making a transition on '
+                             'the same object (its trace record is dropped); a query on another thread walks from a stale cursor' % (f.qualname, st.targets[0].attr, what),
+                             node=st, obligation=True)
+    run.floor('bindings of the event/state/temp holders', n, 3)
+
+
+def start_paths(run, model, rule):
+    """fabric.start() and the writer's start() are check-then-act on a thread handle and set the run event the delivery threads, the writer and every active object
+    share; the package calls them from one place, the start of an active object, fabric first.  A second call site (a publisher thread, the writer restarting itself)
+    races with that one or sets the flag while the fabric is stopped."""
+    run.rule(rule, 'fabric.start() and writer.start() are called only on the start path of an active object, fabric first')
+    n = 0
+    from sa.normalise import baseline_names
+    known = baseline_names()
+    refs = {}
+    for g_ in model.all_funcs():
+        for y in ast.walk(g_.node):
+            if isinstance(y, ast.Attribute):
+                refs[y.attr] = refs.get(y.attr, 0) + 1
+            elif isinstance(y, ast.Name) and isinstance(y.ctx, ast.Load):
+                refs[y.id] = refs.get(y.id, 0) + 1
+    for f in model.all_funcs():
+        if f.module.name != 'activeobject':
+            continue
+        top = f
+        while top.parent is not None:
+            top = top.parent
+        on_start_path = 'start' in top.name.lower()
+        if top.qualname not in known and not refs.get(top.name):
+            continue        # a new entry point nothing in the package calls (__enter__ of a `with fabric:` convenience): the user's own, explicit start
+        calls = []
+        for c in walk_shallow(f.node):
+            if isinstance(c, ast.Call) and isinstance(c.func, ast.Attribute) and c.func.attr == 'start':
+                d = dotted(c.func.value) or ''
+                if d.endswith('.fabric') or d.endswith('.writer') or (d == (f.params[0] if f.params else None) and f.owner_class is not None and
+                                                                      f.owner_class.name in ('InstrumenationWriterClass', 'ActiveFabricSource')):
+                    calls.append((c, 'fabric' if d.endswith('.fabric') or (f.owner_class is not None and f.owner_class.name == 'ActiveFabricSource' and not d.endswith('.writer')) else 'writer'))
+        for c, what in calls:
+            n += 1
+            run.inst(rule, f, '%s.start() is called on the start path only: %s' % (what, norm(c)), on_start_path,
+                     '' if on_start_path else ('%s calls %s: start() tests "thread alive?" and then creates one, without a lock, and sets the run event shared by the fabric, the writer '
+                                               'and all active objects. Called from here it runs on whatever thread comes by - two publishers restart a stopped fabric at once and two '
+                                               'delivery threads of one kind overtake each other; a writer that restarts itself sets the flag while the fabric is stopped, and active '
+                                               'objects no longer halt' % (f.qualname, norm(c))), node=c, obligation=True)
+        fab = [c for c, w in calls if w == 'fabric']
+        wri = [c for c, w in calls if w == 'writer']
+        if fab and wri:
+            ok = fab[0].lineno < wri[0].lineno
+            run.inst(rule, f, 'the fabric is started before the writer', ok,
+                     '' if ok else ('%s looks at / starts the writer before it starts the fabric: the writer thread runs on the flag that fabric.start() sets, so a writer left over '
+                                    'from before a fabric.stop() is taken for alive, leaves its loop before the flag is set again, and nobody restarts it - live spy and trace lines '
+                                    'pile up unwritten' % f.qualname), node=wri[0], obligation=True)
+    run.floor('start() calls on the fabric and the writer', n, 2)
+
+
+def no_lock_across_step(run, model, rule):
+    """user handlers run inside the wrapped step; a lock of the package held across it is held while arbitrary user code runs - posting into another chart that is doing
+    the same in the other direction deadlocks, and only for instrumented charts"""
+    run.rule(rule, 'no lock of the package is held across the wrapped step (user handlers run inside it)')
+    cg = callgraph(model)
+    n = 0
+    for fac, inner in cg.factories.items():
+        if inner.module.name not in ('hsm', 'activeobject') or not fac.params:
+            continue
+        for w in ast.walk(inner.node):
+            if isinstance(w, ast.With):
+                wrapped = [c for b in w.body for c in ast.walk(b) if isinstance(c, ast.Call) and isinstance(c.func, ast.Name) and c.func.id == fac.params[0]]
+                if wrapped:
+                    n += 1
+                    run.inst(rule, inner, 'the wrapped call is not made inside a with-block: ' + norm(w.items[0].context_expr), False,
+                             '%s calls the function it wraps inside `with %s`: the run-to-completion step, user actions included, runs with that lock held. Two instrumented charts '
+                             'whose actions post into each other at the same moment take the two locks in opposite order and stop for good; the same charts without '
+                             'instrumentation run through' % (inner.qualname, norm(w.items[0].context_expr)), node=w, obligation=True)
+    if n == 0:
+        run.inst(rule, model.func('hsm.spy_on'), 'no wrapper holds a lock across the call it wraps', True, obligation=True)
+
+
+SHARED['holders_per_chart'] = (holders_per_chart, 'HOLDER.per-chart', ('C01', 'C02', 'C03', 'C20', 'C22'))
+SHARED['start_paths'] = (start_paths, 'ORDER.start-path', ('C06', 'C08', 'C12', 'C13', 'C21'))
+SHARED['no_lock_across_step'] = (no_lock_across_step, 'WRAP.no-lock', ('C05', 'C18'))
+
+
+def singleton_no_memo(run, model, rule):
+    """the once-only construction rests on the re-test of the slot under the lock; memoising helpers (functools.cached_property since 3.12, lru_cache, cache) do not lock:
+    two first requests both miss, both construct"""
+    run.rule(rule, 'the singleton is not built through a memoising decorator (cached_property / lru_cache / cache take no lock around the miss)')
+    k = model.cls('SingletonDecorator')
+    n = 0
+    for st in k.node.body:
+        if isinstance(st, ast.FunctionDef):
+            memo = [d for d in st.decorator_list if norm(d.func if isinstance(d, ast.Call) else d).split('.')[-1] in ('cached_property', 'lru_cache', 'cache')]
+            builds = [c for c in ast.walk(st) if isinstance(c, ast.Call) and (dotted(c.func) or '').endswith('.klass')]
+            if memo and builds:
+                n += 1
+                run.inst(rule, k.methods.get(st.name) or k.methods.get('__call__'), 'construction is not memoised: %s' % st.name, False,
+                         'SingletonDecorator.%s builds the instance (%s) under @%s: a thread that finds the cache empty while another is still constructing waits for the lock (if there '
+                         'is one) and then constructs again - nothing re-tests the cache under the lock; the second object replaces the first, which its requester keeps'
+                         % (st.name, norm(builds[0]), norm(memo[0])), node=st, obligation=True)
+    if n == 0:
+        run.inst(rule, k.methods.get('__call__'), 'no memoising decorator builds the instance', True, obligation=True)
+
+
+def immediate_caller_frame(run, model, rule):
+    """the line that decides "keep the lock" must be the line of the statement that performs *this* access: the frame directly above __get__.  Walking further up
+    (past __getattr__ / __getattribute__ hooks, helpers, proxies) classifies a line whose augmented assignment - if it has one - will never call this descriptor's __set__."""
+    run.rule(rule, 'the classified frame is the direct caller of __get__ (currentframe().f_back), not a frame found by walking further up the stack')
+    cls = model.cls('ThreadSafeAttribute')
+    get = cls.methods.get('__get__')
+    bad = None
+    for x in ast.walk(get.node):
+        if isinstance(x, (ast.While, ast.For)) and any(isinstance(y, ast.Attribute) and y.attr == 'f_back' for y in ast.walk(x)):
+            bad = x
+        if isinstance(x, ast.Attribute) and x.attr == 'f_back' and isinstance(x.value, ast.Attribute) and x.value.attr == 'f_back':
+            bad = x
+        if isinstance(x, ast.Call) and norm(x.func).split('.')[-1] in ('stack', 'getouterframes', '_getframe') and not (
+                norm(x.func).endswith('_getframe') and len(x.args) == 1 and isinstance(x.args[0], ast.Constant) and x.args[0].value == 1):
+            bad = x
+    run.inst(rule, get, 'the frame inspected is the immediate caller', bad is None,
+             '' if bad is None else ('__get__ walks up the stack beyond its direct caller (%s): a plain read made inside an attribute hook or helper is classified by the line that used the '
+                                     'hook - when that line is an augmented assignment (`meter.count += view.step`) the read keeps this attribute\'s lock, and no __set__ of this '
+                                     'attribute follows to release it' % norm(bad)[:80]), node=bad, obligation=True)
+
+
+def value_not_captured(run, model, rule):
+    """one descriptor serves every instance: whatever __get__ keeps on the descriptor between calls is shared.  A closure that captured `instance` (a cached reader per
+    call site) answers for the first instance ever read from that line"""
+    run.rule(rule, 'nothing that captures the instance parameter (a lambda, a nested function, a bound reader) is stored on the descriptor')
+    cls = model.cls('ThreadSafeAttribute')
+    n = 0
+    for f in (cls.methods.get('__get__'), cls.methods.get('__set__')):
+        if f is None or len(f.params) < 2:
+            continue
+        selfn, inst = f.params[0], f.params[1]
+        closures = {}
+        for st in ast.walk(f.node):
+            if isinstance(st, ast.Assign) and isinstance(st.value, ast.Lambda) and any(isinstance(y, ast.Name) and y.id == inst for y in ast.walk(st.value)):
+                for t in st.targets:
+                    if isinstance(t, ast.Name):
+                        closures[t.id] = st.value
+            if isinstance(st, ast.FunctionDef) and st is not f.node and any(isinstance(y, ast.Name) and y.id == inst for y in ast.walk(st)):
+                closures[st.name] = st
+        for st in ast.walk(f.node):
+            if isinstance(st, ast.Assign):
+                stored_on_self = any((isinstance(t, (ast.Subscript, ast.Attribute)) and (dotted(t.value if isinstance(t, ast.Subscript) else t) or '').startswith(selfn + '.')) for t in st.targets)
+                if stored_on_self:
+                    caps = [y for y in ast.walk(st.value) if (isinstance(y, ast.Name) and y.id in closures) or
+                            (isinstance(y, ast.Lambda) and any(isinstance(z, ast.Name) and z.id == inst for z in ast.walk(y))) or (isinstance(y, ast.Name) and y.id == inst)]
+                    if caps:
+                        n += 1
+                        run.inst(rule, f, 'the descriptor keeps nothing that holds the instance: ' + norm(st)[:60], False,
+                                 '%s stores %s on the descriptor, and that value captures `%s`: the descriptor is one object for all instances of the class, so the next instance that '
+                                 'comes by the same way is answered with the first one\'s value (a new instance reads a value where 0 is expected, `obj.x += 1` writes a number derived '
+                                 'from another object)' % (f.qualname, norm(st.value)[:60], inst), node=st, obligation=True)
+    if n == 0:
+        run.inst(rule, cls.methods.get('__get__'), 'no closure over the instance is kept on the descriptor', True, obligation=True)
+
+
+SHARED['singleton_no_memo'] = (singleton_no_memo, 'ATOMIC.no-memo', ('C30',))
+SHARED['immediate_caller_frame'] = (immediate_caller_frame, 'PROTO.caller-frame', ('C27', 'C28'))
+SHARED['value_not_captured'] = (value_not_captured, 'DESC.no-capture', ('C29',))
+
+
+def accessors_fresh(run, model, rule):
+    """spy_full() / spy_rtc() hand out the log as it is *now*: evaluated twice on a scratch chart whose ring buffer is full both times (same length, different lines) -
+    the second answer must be the second content; both answers are new lists"""
+    from sa import pureeval
+    run.rule(rule, 'spy_full() and spy_rtc() return the current content of their ring buffer, also when its length did not change since the last call (a full ring keeps its length)')
+    hq = model.cls('HsmWithQueues')
+    n = 0
+    for nm, ring in (('spy_full', 'full'), ('spy_rtc', 'rtc')):
+        f = hq.methods.get(nm)
+        if f is None:
+            continue
+        methods = {k: m.node for k, m in hq.methods.items() if k != nm and not k.startswith('__')}
+        try:
+            first, second = ['a', 'b', 'c'], ['b', 'c', 'd']
+            chart = pureeval.Obj(instrumented=True, spied_on=True, full=pureeval.Obj(spy=list(first), trace=[]), rtc=pureeval.Obj(spy=list(first), tuples=[]), __world__=True)
+            for st in hq.methods['__init__'].node.body if '__init__' in hq.methods else []:
+                # new bookkeeping attributes of the accessors start as the constructor leaves them
+                if isinstance(st, ast.Assign) and len(st.targets) == 1 and isinstance(st.targets[0], ast.Attribute) and isinstance(st.targets[0].value, ast.Name) \
+                        and st.targets[0].attr not in vars(chart) and isinstance(st.value, (ast.List, ast.Dict, ast.Constant, ast.Tuple)):
+                    setattr(chart, st.targets[0].attr, pureeval.ev(st.value, {}))
+            g_ = pureeval.module_constants(model, f.module)
+            r1 = pureeval.call(f.node, [chart], globals_=g_, mutable=True, methods=methods, strict_locals=True)
+            getattr(chart, ring).spy[:] = second
+            r2 = pureeval.call(f.node, [chart], globals_=g_, mutable=True, methods=methods, strict_locals=True)
+        except (AnalysisError, pureeval.Raised) as ex:
+            run.note('%s is outside the evaluator\'s fragment (%s)' % (nm, ex))
+            continue
+        n += 1
+        ok = list(r1 or []) == first and list(r2 or []) == second
+        run.inst(rule, f, '%s() follows the ring buffer when its length stays the same' % nm, ok,
+                 '' if ok else ('%s() answered %s for the log %s and then %s for the log %s: once the ring buffer is full its length no longer changes, and the accessor keeps handing out '
+                                'an old copy - spy() stops being the concatenation of the step logs' % (nm, r1, first, r2, second)), obligation=True)
+    run.floor('spy accessors evaluated', n, 1)
+
+
+SHARED['accessors_fresh'] = (accessors_fresh, 'SPY.accessor-fresh', ('C19',))
+
+
+class _Borrow:
+    """a view of the property's Run that lets another property's module report only a chosen set of its rules (everything else it says - other rules, floors, notes,
+    assumptions - is dropped): the way to reuse a rule that lives inline in another module without moving it"""
+
+    def __init__(self, run, allow, suffix):
+        self._run = run
+        self._allow = set(allow)
+        self._suffix = suffix
+        self.prop, self.tier, self.model = run.prop, run.tier, run.model
+        self.explanation = ''
+        self.findings = []
+        self.analysis_error = None
+        self.floor_failures = []
+
+    def rule(self, rule, text):
+        if rule in self._allow:
+            self._run.rule(rule, text + self._suffix)
+
+    def inst(self, rule, *a, **k):
+        if rule in self._allow:
+            return self._run.inst(rule, *a, **k)
+
+    def touch(self, *a, **k):
+        return self._run.touch(*a, **k)
+
+    def floor(self, *a, **k):
+        pass
+
+    def assume(self, *a, **k):
+        pass
+
+    def note(self, *a, **k):
+        pass
+
+
+# rule ids borrowed from the module of another property: property -> [(module, {rule ids})]
+BORROWED = {
+    'C01': [('c22', {'HSM-CURSOR.I1'})],
+    'C02': [('c22', {'HSM-CURSOR.I1'})],
+    'C03': [('c18', {'WRAP.no-block'}), ('c22', {'HSM-CURSOR.I1'})],
+    'C04': [('c18', {'WRAP.no-block'})],
+    'C05': [('c18', {'WRAP.no-block'})],
+    'C09': [('c04', {'ALIAS.queue'})],
+    'C15': [('c14', {'CONSUMER.next_rtc'})],
+    'C24': [('c14', {'CONSUMER.circuit', 'CONSUMER.next_rtc'})],
+    'C26': [('c25', {'ATOMIC.registry'})],
+    'C32': [('c21', {'LIVE.newness'})],
+}
+
+
+def run_borrowed(run, model, prop):
+    import importlib
+    for modname, rules in BORROWED.get(prop, []):
+        mod = importlib.import_module('props.' + modname)
+        b = _Borrow(run, rules, ' (rule of %s, a mechanism this property rests on too)' % modname.upper())
+        try:
+            mod.check(b, model, run.tier)
+        except AnalysisError:
+            pass        # the lending module refused on a shape of its own: its rule says nothing here
+
+
 def run_shared(run, model, prop):
+    run_borrowed(run, model, prop)
     for name, (fn, rule, props_) in SHARED.items():
         if prop in props_:
             fn(run, model, rule)
